@@ -105,9 +105,10 @@ Lemma pred_ok_spec a k q :
   | PEq v => aget a k = Some v
   | PChoice vs => exists x, aget a k = Some x /\ In x vs
   | PNot v => aget a k <> Some v
+  | PList _ => False
   end.
 Proof.
-  unfold pred_ok. destruct q as [v|vs|v]; destruct (aget a k) as [x|].
+  unfold pred_ok. destruct q as [v|vs|v|vs]; destruct (aget a k) as [x|].
   - rewrite Z.eqb_eq. split; congruence.
   - split; discriminate.
   - rewrite existsb_exists. split.
@@ -116,6 +117,8 @@ Proof.
   - split; [discriminate|intros (y & H & _); discriminate].
   - rewrite negb_true_iff, Z.eqb_neq. split; congruence.
   - split; [discriminate|reflexivity].
+  - split; [discriminate|tauto].
+  - split; [discriminate|tauto].
 Qed.
 
 Lemma fits_spec L m p :
